@@ -1,1 +1,169 @@
-From MiniMcmc Require Import Model.Tracker.
+(* C13 — After any sequence of updates the per-chain tracker reports the count, mean and
+   unbiased variance of exactly the states it was fed; the R-hat derived from several trackers
+   equals the classical var+/W of those draws and is identical to what the multi-chain tracker
+   reports for the same data; the reported acceptance rate is an exponential moving average
+   (weight 0.01) of "state differs from previous state" indicators and lies in [0,1].
+   Models: Model/Stats.v (trk_step, trk_sm2, collect_rhat2, multi_rhat2, bmean, bvar_unbiased, batch_rhat2), generic over
+   Base.Num and instantiated here at numR (real arithmetic: add = Rplus, ..., ofN n = IZR (Z.of_nat n)
+   = INR n), and Model/Tracker.v (emaR, chain_pR, multi_pR).  The tracker models are per
+   coordinate: the implementation applies them to every parameter independently, so the
+   statements hold for any number of parameters (n_params only ever entered through the
+   pre-repair divisor, see C13_old_divisor_refuted).  All functions return R-hat^2. *)
+From MiniMcmc Require Import Base.Num Base.Util Model.Stats Model.Tracker Proofs.Tracker.
+From Coq Require Import Reals.
+Close Scope Q_scope.
+Open Scope R_scope.
+
+(* ---- (a) the streaming tracker reports the statistics of exactly the states it was fed ---- *)
+
+Theorem C13_count : forall xs : list R,
+  t_n numR (trk_run numR xs) = length xs.
+Proof. exact trk_count. Qed.
+
+Theorem C13_mean : forall xs : list R, xs <> [] ->
+  t_mean numR (trk_run numR xs) = bmean numR xs.
+Proof. exact trk_mean. Qed.
+
+(* the model's sum is the ordinary sum, so the mean is  (x_1 + ... + x_n) / n *)
+Theorem C13_sum_is_sum : forall xs : list R, sumK numR xs = fold_right Rplus 0 xs.
+Proof. exact sumK_R_fold_right. Qed.
+
+Theorem C13_mean_explicit : forall xs : list R, xs <> [] ->
+  t_mean numR (trk_run numR xs) = fold_right Rplus 0 xs / INR (length xs).
+Proof. exact trk_mean_explicit. Qed.
+
+Theorem C13_mean_sq : forall xs : list R, xs <> [] ->
+  t_msq numR (trk_run numR xs) = meanK numR (map (fun x => x * x) xs).
+Proof. exact trk_mean_sq. Qed.
+
+(* reported variance (msq - mean^2) * n / (n - 1)  =  sum (x - mean)^2 / (n - 1) *)
+Theorem C13_variance : forall xs : list R, (2 <= length xs)%nat ->
+  trk_sm2 numR (trk_run numR xs) = bvar_unbiased numR xs.
+Proof. exact trk_variance. Qed.
+
+Theorem C13_variance_explicit : forall xs : list R, (2 <= length xs)%nat ->
+  let mu := fold_right Rplus 0 xs / INR (length xs) in
+  trk_sm2 numR (trk_run numR xs)
+  = fold_right Rplus 0 (map (fun x => (x - mu) * (x - mu)) xs) / (INR (length xs) - 1).
+Proof. exact trk_variance_explicit. Qed.
+
+(* ---- (b) R-hat^2 from tracker statistics = classical batch R-hat^2 = multi-chain tracker ---- *)
+(* at least two chains, all of one common length n >= 2; no assumption on W (if W = 0 both
+   sides are the same quotient x / 0) *)
+
+Theorem C13_rhat_is_batch : forall (chains : list (list R)) (n : nat),
+  (2 <= length chains)%nat -> (2 <= n)%nat -> (forall c, In c chains -> length c = n) ->
+  collect_rhat2 numR (map (fun c => (t_n numR (trk_run numR c), t_mean numR (trk_run numR c),
+                                      trk_sm2 numR (trk_run numR c))) chains)
+  = batch_rhat2 numR chains.
+Proof. exact collect_is_batch. Qed.
+
+Theorem C13_multi_is_batch : forall (chains : list (list R)) (n : nat),
+  (2 <= length chains)%nat -> (2 <= n)%nat -> (forall c, In c chains -> length c = n) ->
+  multi_rhat2 numR (map (trk_run numR) chains) = batch_rhat2 numR chains.
+Proof. exact multi_is_batch. Qed.
+
+Theorem C13_rhat_agree : forall (chains : list (list R)) (n : nat),
+  (2 <= length chains)%nat -> (2 <= n)%nat -> (forall c, In c chains -> length c = n) ->
+  collect_rhat2 numR (map (fun c => (t_n numR (trk_run numR c), t_mean numR (trk_run numR c),
+                                      trk_sm2 numR (trk_run numR c))) chains)
+  = multi_rhat2 numR (map (trk_run numR) chains).
+Proof. exact collect_is_multi. Qed.
+
+(* ---- (c) the divisor before the repair (n_chains * n_params - 1) violates (b) ----
+   exact rationals: 3 chains x 2 draws [[0;1];[1;1];[0;0]] of one of n_params = 4 parameters;
+   the tracker statistics are those of the draws, the repaired collect_rhat2 equals the batch
+   value and the pre-repair one does not. *)
+Theorem C13_old_divisor_refuted :
+  exists (chains : list (list Q)) (n_params : nat),
+    let st := map (fun c => (t_n numQ (trk_run numQ c), t_mean numQ (trk_run numQ c),
+                             trk_sm2 numQ (trk_run numQ c))) chains in
+    Qeq_bool (collect_rhat2_old numQ n_params st) (batch_rhat2 numQ chains) = false /\
+    Qeq_bool (collect_rhat2 numQ st) (batch_rhat2 numQ chains) = true.
+Proof. exists old_chains, 4%nat. exact old_divisor_witness. Qed.
+
+(* ---- (d) acceptance rate ---- *)
+
+Theorem C13_p_accept_ema : forall (p : R) (a : bool),
+  emaR p a = p + (1 / 100) * ((if a then 1 else 0) - p).
+Proof. exact emaR_ema. Qed.
+
+(* per-chain tracker: first step starts from the first-coordinate indicator, every later step
+   applies one EMA update with the "state differs" indicator *)
+Theorem C13_chain_p_first : forall f a : bool,
+  chain_pR [(f, a)] = emaR (if f then 1 else 0) a.
+Proof. exact chain_pR_first. Qed.
+
+Theorem C13_chain_p_step : forall (inds : list (bool * bool)) (f a : bool),
+  inds <> [] -> chain_pR (inds ++ [(f, a)]) = emaR (chain_pR inds) a.
+Proof. exact chain_pR_snoc. Qed.
+
+(* multi-chain tracker: starts at 0, every step folds the chains' indicators in order *)
+Theorem C13_multi_p_step : forall (steps : list (list bool)) (inds : list bool),
+  multi_pR [] = 0 /\ multi_pR (steps ++ [inds]) = fold_left emaR inds (multi_pR steps).
+Proof. intros steps inds. split; [exact multi_pR_nil | exact (multi_pR_snoc steps inds)]. Qed.
+
+Theorem C13_p_accept_range :
+  (forall (p : R) (a : bool), 0 <= p <= 1 -> 0 <= emaR p a <= 1) /\
+  (forall inds : list (bool * bool), inds <> [] -> 0 <= chain_pR inds <= 1) /\
+  (forall steps : list (list bool), 0 <= multi_pR steps <= 1).
+Proof. exact (conj emaR_range (conj chain_pR_range multi_pR_range)). Qed.
+
+(* ---- non-vacuity ---- *)
+
+(* history [1;2;4]: count 3, mean 7/3, unbiased variance 7/3 (exact rationals, evaluated) *)
+Example C13_history_Q :
+  let t := trk_run numQ [1%Q; 2%Q; 4%Q] in
+  t_n numQ t = 3%nat /\ t_mean numQ t = (7 # 3)%Q /\ trk_sm2 numQ t = (7 # 3)%Q.
+Proof. vm_compute. repeat split. Qed.
+
+(* the same history over the reals, through the theorems *)
+Example C13_history_R :
+  let t := trk_run numR [1; 2; 4] in
+  t_n numR t = 3%nat /\ t_mean numR t = 7 / 3 /\ trk_sm2 numR t = 7 / 3.
+Proof.
+  cbv zeta. split; [|split].
+  - rewrite C13_count. reflexivity.
+  - rewrite C13_mean_explicit by discriminate. simpl. field.
+  - rewrite (C13_variance_explicit [1; 2; 4]) by (simpl; Lia.lia). simpl. field.
+Qed.
+
+(* two chains of three draws meet the hypotheses of C13_rhat_is_batch / C13_multi_is_batch /
+   C13_rhat_agree (with W <> 0), and on them the common R-hat^2 is 7/6 (exact rationals) *)
+Example C13_rhat_hypotheses_satisfiable :
+  let chains := [[0; 1; 2]; [1; 3; 2]] in
+  (2 <= length chains)%nat /\ (2 <= 3)%nat /\ (forall c, In c chains -> length c = 3%nat).
+Proof.
+  cbv zeta. split; [simpl; Lia.lia|]. split; [Lia.lia|].
+  intros c [<-|[<-|[]]]; reflexivity.
+Qed.
+
+Example C13_rhat_Q :
+  let chains := [[0%Q; 1%Q; 2%Q]; [1%Q; 3%Q; 2%Q]] in
+  let st := map (fun c => (t_n numQ (trk_run numQ c), t_mean numQ (trk_run numQ c),
+                           trk_sm2 numQ (trk_run numQ c))) chains in
+  collect_rhat2 numQ st = batch_rhat2 numQ chains /\
+  multi_rhat2 numQ (map (trk_run numQ) chains) = batch_rhat2 numQ chains /\
+  batch_rhat2 numQ chains = (7 # 6)%Q.
+Proof. vm_compute. repeat split. Qed.
+
+(* acceptance rate: one accepted move from p = 0 gives 1/100 *)
+Example C13_p_accept_example : chain_pR [(false, true)] = 1 / 100 /\ multi_pR [[true]] = 1 / 100.
+Proof. unfold chain_pR, multi_pR, emaR. simpl. split; Lra.lra. Qed.
+
+Print Assumptions C13_count.
+Print Assumptions C13_mean.
+Print Assumptions C13_sum_is_sum.
+Print Assumptions C13_mean_explicit.
+Print Assumptions C13_mean_sq.
+Print Assumptions C13_variance.
+Print Assumptions C13_variance_explicit.
+Print Assumptions C13_rhat_is_batch.
+Print Assumptions C13_multi_is_batch.
+Print Assumptions C13_rhat_agree.
+Print Assumptions C13_old_divisor_refuted.
+Print Assumptions C13_p_accept_ema.
+Print Assumptions C13_chain_p_first.
+Print Assumptions C13_chain_p_step.
+Print Assumptions C13_multi_p_step.
+Print Assumptions C13_p_accept_range.
